@@ -59,6 +59,8 @@ func c15init(withDiamond bool) *c15state {
 		must(err)
 		s.diamond = dd.DiamondID
 		c15sleep()
+		must(splitAddL(st, "r", dd.DiamondID, "s0", map[string][]byte{"s0/file": []byte("from split zero"), "s0/other": c15N}, c15L))
+		c15sleep()
 		must(splitAddL(st, "r", dd.DiamondID, "s1", map[string][]byte{"s1/file": []byte("from split one"), "a": c15X["a"]}, c15L))
 	}
 	c15sleep()
